@@ -31,11 +31,12 @@ const (
 	PolSingle          // one preemption: A runs to a drawn step, then everybody else, then A finishes
 	PolRR              // round robin with fixed quantum
 	PolTargeted        // like uniform, but decision points only at sites that touch shared-looking state
+	PolSync            // decision points only where the current task releases or is about to take a lock; long stalls
 	PolReplay          // apply a recorded decision list
 	NumPolicies = PolReplay
 )
 
-var PolicyNames = [...]string{"uniform", "pct", "single", "rr", "targeted", "replay"}
+var PolicyNames = [...]string{"uniform", "pct", "single", "rr", "targeted", "sync", "replay"}
 
 // Task status.
 const (
@@ -72,6 +73,7 @@ type Config struct {
 	GCPermil  int    // per decision point: probability (‰) of an injected GC
 	StallPerm int    // per decision point: probability (‰) of stalling the current task
 	StallMean int    // mean stall length in steps (heavy tailed)
+	SyncQ     int    // PolSync: a lock release/acquire is a decision point with probability 1/SyncQ
 
 	Replay []Decision // PolReplay
 
@@ -88,6 +90,8 @@ type Stats struct {
 	GCs         uint64
 	Stalls      uint64 // stall faults started
 	StallOps    uint64 // operations completed by other tasks while some task was stalled mid-operation
+	SyncPoints  uint64 // lock release/acquire points passed inside operations
+	SyncParks   uint64 // of those, the task was parked there (PolSync)
 	LockWaits   uint64 // cooperative lock-wait yields (only when the library uses sync)
 	Sig         uint64 // hash of the sequence of (from task, site preempted at, to task)
 	Overrun     bool   // some operation exceeded its step bound (L2)
@@ -163,6 +167,7 @@ const (
 	SiteLockWait = 0xFFFFFFF3
 	SiteExit     = 0xFFFFFFF4
 	SiteStart    = 0xFFFFFFF5
+	SiteSync     = 0xFFFFFFF6
 )
 
 // Active reports whether a simulated run is in progress.
@@ -271,6 +276,9 @@ func Y(site uint32) {
 		singleStep(site)
 		return
 	}
+	if cfg.Policy == PolSync {
+		return // decision points are the sync points only (and task exits)
+	}
 	countdown--
 	if countdown > 0 {
 		return
@@ -322,6 +330,64 @@ func YieldLock() {
 		switchTo(nextOther(me), SiteLockWait)
 	}
 	lockWait[me] = false
+}
+
+// SyncPoint is called by the sync shim right after the current task released a
+// lock and right before it tries to take one. The window between a release and
+// the next acquire is where a correctly locked but non-atomic sequence can be
+// broken, so PolSync places its preemptions exactly here and parks the task for
+// a long time while the others complete whole operations.
+//
+//go:norace
+func SyncPoint() {
+	if !active || quiet != 0 {
+		return
+	}
+	me := cur
+	step++
+	if aborting {
+		return // unwinding: never panic out of an unlock
+	}
+	if inOp[me] {
+		stats.SyncPoints++
+	}
+	if cfg.Policy == PolReplay {
+		replayStep(SiteSync)
+		return
+	}
+	if cfg.Policy != PolSync || !inOp[me] {
+		return
+	}
+	q := cfg.SyncQ
+	if q < 1 {
+		q = 1
+	}
+	if rng.Intn(q) != 0 {
+		return
+	}
+	var cand [MaxTasks]int32
+	n := 0
+	for i := 0; i < nTasks; i++ {
+		if int32(i) != me && status[i] == stRunnable && stalled[i] <= step {
+			cand[n] = int32(i)
+			n++
+		}
+	}
+	if n == 0 {
+		return
+	}
+	stats.SyncParks++
+	stats.Stalls++
+	if rng.Intn(2) == 0 {
+		stalled[me] = ^uint64(0) >> 1 // until nobody else can run
+	} else {
+		l := uint64(200 + rng.Intn(4000))
+		if rng.Intn(4) == 0 {
+			l *= 16
+		}
+		stalled[me] = step + l
+	}
+	switchTo(cand[rng.Intn(n)], SiteSync)
 }
 
 // LockEvent tells the scheduler that some lock, condition or wait group changed
@@ -883,7 +949,27 @@ func handOff(t int) {
 			nxt = cand[1]
 		}
 	default:
-		nxt = cand[rng.Intn(n)]
+		// prefer a task that is not serving a stall; if all are, lift the earliest
+		var ok [MaxTasks]int32
+		m := 0
+		for i := 0; i < n; i++ {
+			if stalled[cand[i]] <= step {
+				ok[m] = cand[i]
+				m++
+			}
+		}
+		if m > 0 {
+			nxt = ok[rng.Intn(m)]
+		} else {
+			nxt = cand[0]
+			for i := 1; i < n; i++ {
+				if stalled[cand[i]] < stalled[nxt] {
+					nxt = cand[i]
+				}
+			}
+			stalled[nxt] = 0
+			rng.Intn(1) // keep the draw count uniform
+		}
 	}
 	noteSwitch(me, nxt, SiteExit)
 	cur = nxt
